@@ -8,6 +8,7 @@ import (
 	"fmt"
 	"sort"
 	"strings"
+	"time"
 
 	"github.com/robertkrimen/otto"
 	"github.com/robertkrimen/otto/underscore"
@@ -35,6 +36,8 @@ func init() {
 			{Name: "identical", Run: runIdentical, Solo: true},
 			{Name: "isolation", Run: runIsolation, Solo: true},
 			{Name: "copyshape", Run: runCopyShape, Solo: true},
+			{Name: "protokind", Run: runProtoKind, Solo: true},
+			{Name: "zones", Run: runZones, Solo: true},
 		},
 		Assumptions: []string{
 			"ref/shape is a faithful transcription of ES5.1 section 15 (trusted table)",
@@ -701,4 +704,129 @@ func runDynFunc(r *engine.Run) {
 			r.Check(k, row.expr, row.want, obs)
 		}
 	}
+}
+
+// protokind: "each of the specified kind" for the prototype objects themselves. ES5 15.x.4 opens
+// every prototype section with the kind of the prototype object: Array.prototype is itself an
+// array (exotic length, 15.4.4), String.prototype a String object whose value is "" (15.5.4),
+// Boolean.prototype a Boolean object whose value is false (15.6.4), Number.prototype a Number
+// object whose value is +0 (15.7.4), Date.prototype a Date object whose time value is NaN
+// (15.9.5), Function.prototype a function that accepts any arguments and returns undefined
+// (15.3.4), Error.prototype an Error object (15.11.4); Math and JSON are neither callable nor
+// constructible (15.8, 15.12). Behavioural probes, each on a runtime of its own (the probes
+// write to the intrinsics), in every configuration.
+var protoKindRows = []struct{ name, src, want string }{
+	{"Array.prototype/index-write-extends-length", `var P = Array.prototype; P[2] = "x"; var a = P.length; delete P[2]; P.length = 0; a`, "3"},
+	{"Array.prototype/length-write-truncates", `var P = Array.prototype; P[0] = 1; P[1] = 2; P[2] = 3; P.length = 1; var r = [P.hasOwnProperty("0"), P.hasOwnProperty("1"), P.hasOwnProperty("2"), P.length].join(); P.length = 0; r`, "true,false,false,1"},
+	{"Array.prototype/isArray", `[Array.isArray(Array.prototype), Object.prototype.toString.call(Array.prototype), Array.prototype.length].join()`, "true,[object Array],0"},
+	{"Array.prototype/as-receiver", `var P = Array.prototype; P.push("a", "b"); var r = [P.length, P.join("-"), [].concat(P).length].join(); P.length = 0; r + "," + (0 in [])`, "2,a-b,2,false"},
+	{"Array.prototype/bad-length", `try { Array.prototype.length = -1; "no error" } catch (e) { e.name }`, "RangeError"},
+	{"String.prototype/value", `[String.prototype.valueOf() === "", String.prototype.toString() === "", String.prototype.length, Object.prototype.toString.call(String.prototype), String.prototype.charAt(0) === ""].join()`, "true,true,0,[object String],true"},
+	{"Boolean.prototype/value", `[Boolean.prototype.valueOf() === false, Boolean.prototype.toString(), Object.prototype.toString.call(Boolean.prototype)].join()`, "true,false,[object Boolean]"},
+	{"Number.prototype/value", `[Number.prototype.valueOf() === 0, 1 / Number.prototype.valueOf(), Number.prototype.toString(), Object.prototype.toString.call(Number.prototype)].join()`, "true,Infinity,0,[object Number]"},
+	{"Date.prototype/value", `[isNaN(Date.prototype.getTime()), isNaN(Date.prototype.valueOf()), isNaN(Date.prototype.getFullYear()), isNaN(Date.prototype.getUTCDay()), Object.prototype.toString.call(Date.prototype)].join()`, "true,true,true,true,[object Date]"},
+	{"Function.prototype/callable", `[typeof Function.prototype, Function.prototype(), Function.prototype(1, 2, 3), Function.prototype.call({}, 1), Function.prototype.length, Object.prototype.toString.call(Function.prototype), Object.getPrototypeOf(Function.prototype) === Object.prototype].join()`, "function,,,,0,[object Function],true"},
+	{"Error.prototype/kind", `[Object.prototype.toString.call(Error.prototype), Error.prototype.name, Error.prototype.message === "", Error.prototype.toString(), Object.getPrototypeOf(Error.prototype) === Object.prototype].join()`, "[object Error],Error,true,Error,true"},
+	{"NativeError.prototype/kind", `var out = [], L = [EvalError, RangeError, ReferenceError, SyntaxError, TypeError, URIError]; for (var i = 0; i < L.length; i++) { var P = L[i].prototype; out.push([Object.prototype.toString.call(P), P.name, P.message === "", Object.getPrototypeOf(P) === Error.prototype, Object.getPrototypeOf(L[i]) === Function.prototype].join(":")); } out.join()`,
+		"[object Error]:EvalError:true:true:true,[object Error]:RangeError:true:true:true,[object Error]:ReferenceError:true:true:true,[object Error]:SyntaxError:true:true:true,[object Error]:TypeError:true:true:true,[object Error]:URIError:true:true:true"},
+	{"Object.prototype/kind", `[Object.getPrototypeOf(Object.prototype) === null, Object.isExtensible(Object.prototype), Object.prototype.toString.call(Object.prototype)].join()`, "true,true,[object Object]"},
+	{"Math/not-a-function", `var r = [typeof Math, Object.prototype.toString.call(Math), Object.getPrototypeOf(Math) === Object.prototype]; try { Math(); r.push("called") } catch (e) { r.push(e.name) } try { new Math; r.push("constructed") } catch (e) { r.push(e.name) } r.join()`, "object,[object Math],true,TypeError,TypeError"},
+	{"JSON/not-a-function", `var r = [typeof JSON, Object.prototype.toString.call(JSON), Object.getPrototypeOf(JSON) === Object.prototype]; try { JSON(); r.push("called") } catch (e) { r.push(e.name) } try { new JSON; r.push("constructed") } catch (e) { r.push(e.name) } r.join()`, "object,[object JSON],true,TypeError,TypeError"},
+	{"global/kind", `var g = this; var r = [typeof g, Object.isExtensible(g)]; try { g(); r.push("called") } catch (e) { r.push(e.name) } try { new g; r.push("constructed") } catch (e) { r.push(e.name) } r.join()`, "object,true,TypeError,TypeError"},
+}
+
+func runProtoKind(r *engine.Run) {
+	r.Bound("protokind_rows", fmt.Sprint(len(protoKindRows)))
+	for _, cfg := range configs {
+		for _, row := range protoKindRows {
+			k := key(cfg, row.name)
+			if !r.MineKey(k) {
+				continue
+			}
+			r.Begin(k)
+			vm := build(cfg)
+			res := ox.Run(vm, row.src)
+			r.End()
+			obs := ""
+			switch {
+			case res.Panicked:
+				obs = fmt.Sprint("panic: ", res.PanicVal)
+			case res.Err != nil:
+				obs = "error: " + res.Err.Error()
+			default:
+				obs, _ = res.Value.ToString()
+			}
+			r.Eval(true)
+			r.Outcome(obs)
+			if r.WantSample() {
+				r.Sample(row.src + " => " + obs)
+			}
+			r.Check(k, row.src, row.want, obs)
+		}
+	}
+}
+
+// zones: the distinguishing calls of the Date rows separate a local-time operation from its UTC
+// twin only when local time is not UTC (the workers run with TZ=UTC, where getMinutes and
+// getUTCMinutes are the same function). The Date rows of the table are therefore probed again
+// with the process-local zone set to fixed offsets that are not a whole number of hours - and,
+// for the seconds twins, not a whole number of minutes (such offsets exist: local mean time) -
+// on both sides of UTC. Every probe builds its date from local (or UTC) components and reads
+// it back through the method under test, so its expected value does not depend on the zone;
+// a method wired to its twin's operation reads back a different field value.
+var zoneOffsets = []int{5*3600 + 45*60 + 7, -(3*3600 + 30*60 + 11), 13 * 3600, -11 * 3600}
+
+func runZones(r *engine.Run) {
+	saved := time.Local
+	defer func() { time.Local = saved }()
+	n := 0
+	for _, off := range zoneOffsets {
+		zname := fmt.Sprintf("tz%+d", off)
+		time.Local = time.FixedZone(zname, off)
+		for _, cfg := range []string{"fresh", "copy"} {
+			vm := build(cfg)
+			// the zone itself, as the runtime under test sees it (ES5 15.9.5.26: (t - LocalTime(t)) / msPerMinute)
+			k := key(cfg, zname, "offset")
+			if r.MineKey(k) {
+				src := `[new Date(0).getTimezoneOffset() * 60, Date.UTC(2001, 2, 3, 4, 5, 6, 7) - new Date(2001, 2, 3, 4, 5, 6, 7).getTime()].join()`
+				res := ox.Run(vm, src)
+				obs := "error"
+				if res.Err == nil && !res.Panicked {
+					obs, _ = res.Value.ToString()
+				}
+				r.Eval(true)
+				r.Check(k, src, fmt.Sprintf("%d,%d", -off, off*1000), obs)
+			}
+			for _, row := range shape.Rows {
+				if row.Probe == "" || !(row.Owner == "Date" || row.Owner == "Date.prototype") {
+					continue
+				}
+				n++
+				k := key(cfg, zname, row.Owner, row.Name)
+				if !r.MineKey(k) {
+					continue
+				}
+				r.Begin(k)
+				pr := ox.Run(vm, row.Probe)
+				r.End()
+				o := ""
+				switch {
+				case pr.Panicked:
+					o = fmt.Sprint("panic: ", pr.PanicVal)
+				case pr.Err != nil:
+					o = "error: " + pr.Err.Error()
+				default:
+					o, _ = pr.Value.ToString()
+				}
+				r.Eval(true)
+				r.Outcome(zname + ":" + o)
+				if r.WantSample() {
+					r.Sample(zname + ": " + row.Probe + " => " + o)
+				}
+				r.Check(k, zname+": "+row.Probe, row.Want, o)
+			}
+		}
+	}
+	r.Bound("zone_offsets_s", fmt.Sprint(zoneOffsets))
+	r.Bound("zone_probes", fmt.Sprint(n))
 }
